@@ -419,6 +419,68 @@ global ZeroAddress
 assert
 retsub
 """)
+HAND["h013"] = ("optimisation-detector findings (txna Accounts 0) in main code and in two subroutines called from main: the order of the findings follows the order of Function.blocks", """
+#pragma version 7
+callsub first
+callsub second
+txna Accounts 0
+pop
+int 1
+return
+first:
+txna Accounts 0
+global CurrentApplicationAddress
+==
+assert
+retsub
+second:
+txna Accounts 0
+gtxn 0 Sender
+==
+assert
+txn GroupIndex
+int 0
+==
+assert
+retsub
+""")
+HAND["h014"] = ("as h013 with three subroutines, nested calls and gtxn-with-constant-index / self-access patterns", """
+#pragma version 7
+callsub alpha
+callsub beta
+callsub gamma
+gtxn 0 Sender
+txna Accounts 0
+==
+assert
+int 1
+return
+alpha:
+txna Accounts 0
+pop
+callsub gamma
+retsub
+beta:
+txn GroupIndex
+int 0
+==
+assert
+gtxn 0 RekeyTo
+global ZeroAddress
+==
+assert
+txna Accounts 0
+pop
+retsub
+gamma:
+txna Accounts 0
+pop
+global CurrentApplicationID
+app_params_get AppAddress
+pop
+pop
+retsub
+""")
 
 
 # ---------------------------------------------------------------------------- generator
